@@ -597,7 +597,11 @@ func callSSA(i *interpreter, caller *frame, callpos token.Pos, fn *ssa.Function,
 		}
 	}
 	if fn.Blocks == nil {
-		panic(unsupported("no code for function: " + fn.String()))
+		where := ""
+		if caller != nil {
+			where = " <- " + caller.stack()
+		}
+		panic(unsupported("no code for function: " + fn.String() + where))
 	}
 	if fn.TypeParams().Len() > 0 && len(fn.TypeArgs()) == 0 {
 		panic(engineError("uninstantiated generic " + fn.String()))
